@@ -71,7 +71,7 @@ Inductive err :=
 | EDupColumn
 | EBadTable            (* CREATE TABLE refused: no stored column, two primary keys, AUTOINCREMENT not on an INTEGER PRIMARY KEY, WITHOUT ROWID without primary key, STRICT with a foreign type, DEFAULT on a generated column, generated column in the primary key, fk column count mismatch, reserved name *)
 | ESyntax              (* the text Atlas prints for this statement does not parse *)
-| ENotNullNoDefault    (* ADD COLUMN NOT NULL without a non-NULL default *)
+| ENotNullNoDefault    (* ADD COLUMN NOT NULL without a non-NULL default on a table that holds rows (SQLite >= 3.37 checks the rows, not the declaration) *)
 | EAddColumn           (* ADD COLUMN refused: PRIMARY KEY/UNIQUE, non-constant default, STORED generated *)
 | EDropColumn          (* DROP COLUMN refused: the column is used by the primary key, an index, a UNIQUE or a foreign key *)
 | ENotNull             (* a row violates NOT NULL *)
@@ -394,12 +394,12 @@ Definition add_column (d : db) (n : str) (c : column) (autoinc : bool) : result 
           | Some (DRaw _) => Err EAddColumn
           | Some (DLit v) =>
               if str_eqb v CURRENT_TIME || str_eqb v CURRENT_DATE || str_eqb v CURRENT_TIMESTAMP then Err EAddColumn
-              else if negb (c_null c) && is_null (default_of c) then Err ENotNullNoDefault
+              else if negb (c_null c) && is_null (default_of c) && negb (Nat.eqb (length (ct_rows ct)) 0) then Err ENotNullNoDefault
               else Ok (set_tables d (update_ct n (fun ct =>
                      mkCT (set_x_t (ct_x ct) (add_col (ct_t ct) c)) (ct_uniques ct)
                           (map (fun r => (fst r, snd r ++ [(c_name c, default_of c)])) (ct_rows ct))) (db_tables d)))
           | None =>
-              if negb (c_null c) then Err ENotNullNoDefault
+              if negb (c_null c) && negb (Nat.eqb (length (ct_rows ct)) 0) then Err ENotNullNoDefault
               else Ok (set_tables d (update_ct n (fun ct =>
                      mkCT (set_x_t (ct_x ct) (add_col (ct_t ct) c)) (ct_uniques ct)
                           (map (fun r => (fst r, snd r ++ [(c_name c, VNull)])) (ct_rows ct))) (db_tables d)))
@@ -495,22 +495,25 @@ Definition eval_sexpr (r : row) (e : sexpr) : value :=
   | XIfNull c x => if is_null (row_get r c) then value_of_sql x else row_get r c
   end.
 
-(** the column the rowid is an alias of: a single-column INTEGER PRIMARY KEY of a rowid table *)
+(** a single-column, ascending PRIMARY KEY on a column declared INTEGER *)
+Definition int_pk_shape (t : table) : option str :=
+  match t_pk t with
+  | Some pk => match i_parts pk with
+               | [p] => match p_col p with
+                        | Some c => match find_col c (t_cols t) with
+                                    | Some col => if str_eqb (DiffSqlite.to_upper (c_T col)) T_INTEGER && negb (p_desc p) then Some c else None
+                                    | None => None
+                                    end
+                        | None => None
+                        end
+               | _ => None
+               end
+  | None => None
+  end.
+
+(** the column the rowid is an alias of: an INTEGER PRIMARY KEY of a rowid table *)
 Definition rowid_alias (t : table) : option str :=
-  if t_without_rowid t then None
-  else match t_pk t with
-       | Some pk => match i_parts pk with
-                    | [p] => match p_col p with
-                             | Some c => match find_col c (t_cols t) with
-                                         | Some col => if str_eqb (DiffSqlite.to_upper (c_T col)) T_INTEGER && negb (p_desc p) then Some c else None
-                                         | None => None
-                                         end
-                             | None => None
-                             end
-                    | _ => None
-                    end
-       | None => None
-       end.
+  if t_without_rowid t then None else int_pk_shape t.
 
 Definition max_rowid (l : list row) : Z := fold_left (fun m r => Z.max m (fst r)) l 0%Z.
 
